@@ -13,9 +13,14 @@
  *     deleted and NOT created again - reported as "rec j:-1"); the free list is LIFO, so
  *     the new key has the same index unless other threads interfere - therefore W < 0 means |W| workers
  *     and the threads are run ONE AFTER THE OTHER (created, cancelled if kind 2, joined).
+ *     d_j > 1 selects what the destructor of the j-th key DOES after it has recorded a call with a non-NULL value:
+ *       2,3,4  myth_yield() 1, 2, 3 times          5  myth_testcancel() (a cancellation point inside the destructor)
+ *       6      myth_mutex_lock / unlock of a mutex that a helper thread holds most of the time (the dying thread blocks)
+ *       7 / 8  when called with a non-NULL value v: myth_setspecific(key of slot j+1 / j-1, v + 7)  (a NEW value stored
+ *              during the pass, under a key the walk has not / has already visited)
  * Output:
  *   keys k_0 .. k_{NK-1}                       (index returned for the j-th creation, -1 = failed)
- *   T<i> kind=<k> rec <j>:<idx> ... calls <tag>:<v> ...
+ *   T<i> kind=<k> ret=<r|C> rec <j>:<idx> ... calls <tag>:<v> ...      (ret: what myth_join delivered, C = MYTH_CANCELED)
  *                                              (re-creations done by thread i: slot and new index; then the
  *                                               calls made while thread i terminated, in call order;
  *                                               tag = creation number j of the destructor called)
@@ -24,7 +29,11 @@
 #include <stdio.h>
 #include <stdlib.h>
 #include <string.h>
+#include <pthread.h>
 #include "myth/myth.h"
+#ifndef MYTH_CANCELED
+#define MYTH_CANCELED PTHREAD_CANCELED   /* src/myth_sched.h */
+#endif
 
 #define MAXT 64
 #define MAXLOG 200000
@@ -34,17 +43,36 @@ static volatile int g_nlog;
 static myth_thread_t g_self[MAXT];
 static int g_T;
 
+static int g_beh[1100]; static int g_NK;
+static myth_key_t g_key[1100];
+static myth_mutex_t g_mx[1];
+static volatile int g_stop;
 static void log_call(int tag, void * v) {
-  int i, me = -1; myth_thread_t s = myth_self();
+  int i, me = -1, b; myth_thread_t s = myth_self();
   for (i = 0; i < g_T; i++) if (g_self[i] == s) { me = i; break; }
   i = __sync_fetch_and_add(&g_nlog, 1);
   if (i < MAXLOG) { g_log[i].tid = me; g_log[i].tag = tag; g_log[i].v = (unsigned long)v; }
+  /* what this destructor does while it runs */
+  /* like a real destructor, it does nothing when called with NULL (the library also calls destructors of
+     untouched slots with NULL, C16; a cancellation point there would re-enter the pass for ever) */
+  b = (v && tag >= 0 && tag < 1100) ? g_beh[tag] : 0;
+  if (b >= 2 && b <= 4) { int q; for (q = 0; q < b - 1; q++) myth_yield(); }
+  else if (b == 5) myth_testcancel();
+  else if (b == 6) { myth_mutex_lock(g_mx); myth_mutex_unlock(g_mx); }
+  else if ((b == 7 || b == 8) && v && g_NK > 1) {
+    int j2 = (b == 7) ? (tag + 1) % g_NK : (tag + g_NK - 1) % g_NK;
+    myth_setspecific(g_key[j2], (void *)((unsigned long)v + 7));
+  }
+}
+static void * holder_main(void * a) {
+  (void)a;
+  while (!g_stop) { int q; myth_mutex_lock(g_mx); for (q = 0; q < 20 && !g_stop; q++) myth_yield(); myth_mutex_unlock(g_mx); myth_yield(); }
+  return 0;
 }
 #include "c10_dtors.h"
 
 struct targ { int tid, kind, ns; int * slot; unsigned long * val; int nrec; int rec_slot[64]; int rec_idx[64]; };
 static struct targ TA[MAXT];
-static myth_key_t g_key[1100];
 static volatile int g_started[MAXT];
 
 static void do_sets(struct targ * t) {
@@ -78,7 +106,8 @@ static void * th_main(void * a) {
 }
 
 int main(void) {
-  int W, NK, T, i, j, seq = 0; static int has[1100]; myth_thread_t th[MAXT]; myth_globalattr_t ga[1];
+  int W, NK, T, i, j, seq = 0, need_holder = 0; static int has[1100]; myth_thread_t th[MAXT], holder; myth_globalattr_t ga[1];
+  static void * ret[MAXT];
   if (scanf("%d %d", &W, &NK) != 2 || NK < 0 || NK > 1024) return 2;
   if (W < 0) { seq = 1; W = -W; }
   for (j = 0; j < NK; j++) if (scanf("%d", &has[j]) != 1) return 2;
@@ -89,7 +118,8 @@ int main(void) {
     TA[i].slot = malloc(sizeof(int) * (TA[i].ns + 1)); TA[i].val = malloc(sizeof(unsigned long) * (TA[i].ns + 1));
     for (j = 0; j < TA[i].ns; j++) if (scanf("%d %lu", &TA[i].slot[j], &TA[i].val[j]) != 2) return 2;
   }
-  g_T = T;
+  g_T = T; g_NK = NK;
+  for (j = 0; j < NK; j++) { g_beh[j] = has[j]; if (has[j] == 6) need_holder = 1; }
   myth_globalattr_init(ga); myth_globalattr_set_n_workers(ga, W); myth_init_ex(ga);
   printf("keys");
   for (j = 0; j < NK; j++) {
@@ -98,22 +128,27 @@ int main(void) {
     printf(" %d", g_key[j]);
   }
   printf("\n");
+  myth_mutex_init(g_mx, 0);
+  if (need_holder) holder = myth_create(holder_main, 0);
   if (seq) {
     for (i = 0; i < T; i++) {
       th[i] = myth_create(th_main, &TA[i]);
       if (TA[i].kind == 2) myth_cancel(th[i]);
-      myth_join(th[i], 0);
+      myth_join(th[i], &ret[i]);
       g_self[i] = 0;            /* the descriptor may be reused by the next thread */
     }
   } else {
     for (i = 0; i < T; i++) th[i] = myth_create(th_main, &TA[i]);
     for (i = 0; i < T; i++) if (TA[i].kind == 2) myth_cancel(th[i]);
-    for (i = 0; i < T; i++) myth_join(th[i], 0);
+    for (i = 0; i < T; i++) myth_join(th[i], &ret[i]);
   }
+  g_stop = 1;
+  if (need_holder) myth_join(holder, 0);
   {
     int n = g_nlog;
     for (i = 0; i < T; i++) {
       printf("T%d kind=%d", i, TA[i].kind);
+      if (ret[i] == MYTH_CANCELED) printf(" ret=C"); else printf(" ret=%lu", (unsigned long)ret[i]);
       if (TA[i].nrec) { int q; printf(" rec"); for (q = 0; q < TA[i].nrec; q++) printf(" %d:%d", TA[i].rec_slot[q], TA[i].rec_idx[q]); }
       printf(" calls");
       for (j = 0; j < n && j < MAXLOG; j++) if (g_log[j].tid == i) printf(" %d:%lu", g_log[j].tag, g_log[j].v);
